@@ -2,6 +2,7 @@
 (* require() graph walk as implemented (Layer I): packages are keyed by the require string,
    resolved relative to the requiring file's directory, depth-first in source order. *)
 EXTENDS Naturals, Sequences, FiniteSets, TLC, Json
+CONSTANT MaxReq        \* requires per non-main file (main has up to 2)
 Files == {"main", "p", "q", "sub/p", "sub/q"}          \* <name>.lua under the build root
 Names == {"p", "q", "sub/q"}
 Dir(f) == IF f \in {"sub/p", "sub/q"} THEN "sub" ELSE ""
@@ -11,6 +12,7 @@ VARIABLES exists, req
 vars == <<exists, req>>
 Init == /\ exists \in {E \in SUBSET Files : "main" \in E /\ "p" \in E}
         /\ req \in [Files -> ReqSeqs]
+        /\ \A f \in Files \ {"main"} : Len(req[f]) <= MaxReq
         /\ \A f \in Files \ exists : req[f] = <<>>
         /\ req["sub/p"] = <<>>                              \* keep the space small
 Next == UNCHANGED vars
